@@ -40,7 +40,27 @@ func isInt(v ssa.Value) bool {
 	return ok && b.Info()&types.IsInteger != 0
 }
 
+// canon maps loads of a captured variable that this function never stores to
+// onto the variable itself, so that two loads denote the same atom.
+func canon(v ssa.Value) ssa.Value {
+	if ld, ok := v.(*ssa.UnOp); ok && ld.Op == token.MUL {
+		if fv, ok := ld.X.(*ssa.FreeVar); ok {
+			for _, ref := range *fv.Referrers() {
+				if st, ok := ref.(*ssa.Store); ok && st.Addr == ssa.Value(fv) {
+					return v
+				}
+				if _, ok := ref.(*ssa.MakeClosure); ok {
+					return v
+				}
+			}
+			return fv
+		}
+	}
+	return v
+}
+
 func (p *prover) atom(v ssa.Value, isLen bool) int {
+	v = canon(v)
 	if i, ok := p.idx[v]; ok && !isLen {
 		return i
 	}
